@@ -202,6 +202,9 @@ def witnesses(tier, seed):
                 W.append(mk(t, n, f(), '=' if (n + i) % 3 else '+=', 'idiv%d' % i))
         for n in (1, 2, 3, 4, 5, 7, 8, 9, 15, 16, 17):
             W.append(mk(t, n, L('a'), '/=', 'idivasg_t')); W.append(mk(t, n, S, '/=', 'idivasg_s')); W.append(mk(t, n, B('+', L('a'), L('b')), '/=', 'idivasg_e'))
+    # complex element types (explicit (re,im) references)
+    import cplx_common
+    W += cplx_common.cplx_witnesses('tensor', tier)
     return group_sort(W)
 
 
